@@ -135,8 +135,12 @@ def check_role(role: str, sl: T.Term, op: str, o: Outcome, ctx: Dict[str, Any], 
         lit = F.literal(sl)
         # a length is never negative: len > 0, len != 0, len >= 1 and the truth of the collection are one test
         ln = ("len", days)
-        some = any(g in pc for g in (("cmp", ">", ln, c(0)), ("cmp", "!=", ln, c(0)), ("cmp", ">=", ln, c(1)), ("truthy", days)))
-        none = any(g in pc for g in (("cmp", "<=", ln, c(0)), ("cmp", "==", ln, c(0)), ("cmp", "<", ln, c(1)), ("not", ("truthy", days))))
+        fpc = F.flat_pc(pc)        # (conjuncts of compound guards, unit resolution over the disjunctions)
+        some = any(g in fpc for g in (("cmp", ">", ln, c(0)), ("cmp", "!=", ln, c(0)), ("cmp", ">=", ln, c(1)), ("truthy", days)))
+        none = any(g in fpc for g in (("cmp", "<=", ln, c(0)), ("cmp", "==", ln, c(0)), ("cmp", "<", ln, c(1)), ("not", ("truthy", days))))
+        # the same, decided by evaluation: a guard that is false for every empty (non-empty) collection excludes it
+        some = some or any(F.guard_under(g, F.collection_facts(days, True, None)) is False for g in fpc)
+        none = none or any(F.guard_under(g, F.collection_facts(days, False, None)) is False for g in fpc)
         if lit is not None:
             return (lit == "00" and none), f"day mask is the constant {lit} (non-recurring) on a path where len(days)>0 is {some}"
         e = ("sym", "$e", ("enum", "aioswitcher.schedule:Days"))
